@@ -15,6 +15,10 @@ func VerifC14Surface() {
 	widths := []uint16{0, 1, 2, 3, 255, 256, 257, 300, 32768, 65535}
 	w, h := widths[zzverif.Choose("w", len(widths))], zzverif.Uint16("h")
 	col, row := zzverif.Uint16("col"), zzverif.Uint16("row")
+	// surfaces of at most 2^20 cells (the native replay of a model allocates the real buffer:
+	// 65535 x 65535 cells do not fit in memory); this still spans every width, heights up to
+	// 65535 for narrow surfaces and products far beyond 16 bits
+	zzverif.Assume(int(w)*int(h) <= 1<<20)
 	s := NewSurface(w, h, nil)
 	zzverif.Assert(len(s.Buffer) == int(w)*int(h), "buffer-holds-width-times-height-cells")
 	mark := vaxis.Cell{Style: vaxis.Style{Attribute: vaxis.AttrBold}}
